@@ -12,6 +12,13 @@
 //!          serde_json::from_value and serde_json::from_reader
 //!   {"id":..,"op":"proxy","meth":<proxy method>,"frame":<json text>}
 //!       -> result of the generated proxy method on a connection whose peer answers with the frame
+//!   {"id":..,"op":"build_call","m":<method type>,"frame":<json of the METHOD value>,
+//!    "ctor":"new"|"from"|"into","ops":[["oneway"|"more"|"upgrade",bool],..]}
+//!       -> the call made by that constructor and those setters IN THAT ORDER: what the getters say,
+//!          serde_json::to_string of it and what send_call writes
+//!   {"id":..,"op":"build_reply","p":<parameter type>,"frame":<json of the parameters>|null,
+//!    "ctor":"new_some"|"new_none"|"from"|"into","ops":[true|false|null,..]}   (set_continues, in order)
+//!       -> the same for Reply<P>, sent with send_reply
 //!
 //! Canonical tree of a decoded value (rendered to a Coq `rval` by lib/envgen.py):
 //!   "u" unit | {"b":bool} | {"i":"<decimal>"} | {"s":"<hex of utf-8>"} | {"o":[]} / {"o":[x]}
@@ -572,11 +579,120 @@ fn run_proxy(case: &Value) -> Value {
     json!({"res": res, "wire": String::from_utf8_lossy(&wire)})
 }
 
+// ------------------------------------------------------------------------------------------------
+// values made with the public constructors and setters (the wire image must depend on the logical
+// value only, not on how it was built)
+
+macro_rules! build_call_case {
+    ($case:expr, $M:ty) => {{
+        let case: &Value = $case;
+        let frame = case["frame"].as_str().unwrap();
+        match serde_json::from_str::<$M>(frame) {
+            Err(_) => json!({"built": false}),
+            Ok(m) => {
+                let meth = m.canon();
+                let mut c: Call<$M> = match case["ctor"].as_str().unwrap() {
+                    "new" => Call::new(m),
+                    "from" => Call::from(m),
+                    "into" => m.into(),
+                    x => panic!("unknown ctor {x}"),
+                };
+                for op in case["ops"].as_array().unwrap() {
+                    let v = op[1].as_bool().unwrap();
+                    c = match op[0].as_str().unwrap() {
+                        "oneway" => c.set_oneway(v),
+                        "more" => c.set_more(v),
+                        "upgrade" => c.set_upgrade(v),
+                        x => panic!("unknown setter {x}"),
+                    };
+                }
+                let (sock, sh) = SSocket::new(VecDeque::new());
+                let mut conn = Connection::new(sock);
+                let sent = drive(conn.send_call(&c), &sh);
+                let wire: Vec<u8> = sh.borrow().writes.concat();
+                json!({"built": true, "meth": meth, "same_meth": c.method().canon() == meth,
+                       "get": [c.oneway(), c.more(), c.upgrade()],
+                       "enc": serde_json::to_string(&c).ok(),
+                       "wire": match sent { Some(Ok(())) => Some(String::from_utf8_lossy(&wire).into_owned()), _ => None },
+                       "dbg": dbg(&c)})
+            }
+        }
+    }};
+}
+
+fn run_build_call(case: &Value) -> Value {
+    match case["m"].as_str().unwrap() {
+        "meth" => build_call_case!(case, Meth),
+        "methb" => build_call_case!(case, MethB),
+        "meths" => build_call_case!(case, MethS),
+        "value" => build_call_case!(case, Value),
+        "vsmethod" => build_call_case!(case, varlink_service::Method),
+        x => panic!("unknown method type {x}"),
+    }
+}
+
+fn apply_continues<P>(mut r: Reply<P>, ops: &Value) -> Reply<P> {
+    for op in ops.as_array().unwrap() {
+        r = r.set_continues(op.as_bool());
+    }
+    r
+}
+
+macro_rules! build_reply_case {
+    ($case:expr, $P:ty) => {{
+        let case: &Value = $case;
+        let ctor = case["ctor"].as_str().unwrap();
+        let text = case["frame"].as_str().unwrap_or("null");
+        let built: Option<Reply<$P>> = if ctor == "new_none" {
+            Some(Reply::new(None))
+        } else {
+            match serde_json::from_str::<$P>(text) {
+                Err(_) => None,
+                Ok(p) => Some(match ctor {
+                    "new_some" => Reply::new(Some(p)),
+                    "from" => Reply::from(p),
+                    "into" => p.into(),
+                    x => panic!("unknown ctor {x}"),
+                }),
+            }
+        };
+        match built {
+            None => json!({"built": false}),
+            Some(r) => {
+                let r = apply_continues(r, &case["ops"]);
+                let (sock, sh) = SSocket::new(VecDeque::new());
+                let mut conn = Connection::new(sock);
+                let sent = drive(conn.send_reply(&r), &sh);
+                let wire: Vec<u8> = sh.borrow().writes.concat();
+                json!({"built": true, "params": r.parameters().canon(), "continues": r.continues().canon(),
+                       "enc": serde_json::to_string(&r).ok(),
+                       "wire": match sent { Some(Ok(())) => Some(String::from_utf8_lossy(&wire).into_owned()), _ => None },
+                       "dbg": dbg(&r)})
+            }
+        }
+    }};
+}
+
+fn run_build_reply(case: &Value) -> Value {
+    match case["p"].as_str().unwrap() {
+        "unit" => build_reply_case!(case, ()),
+        "allopt" => build_reply_case!(case, AllOpt),
+        "strict" => build_reply_case!(case, Strict),
+        "value" => build_reply_case!(case, Value),
+        "optnested" => build_reply_case!(case, OptNested),
+        "borrowed" => build_reply_case!(case, Borrowed),
+        "listy" => build_reply_case!(case, Listy),
+        x => panic!("unknown parameter type {x}"),
+    }
+}
+
 fn run_case(case: &Value) -> Value {
     let mut out = match case["op"].as_str().unwrap() {
         "reply" => run_reply(case),
         "call" => run_call(case),
         "proxy" => run_proxy(case),
+        "build_call" => run_build_call(case),
+        "build_reply" => run_build_reply(case),
         x => panic!("unknown op {x}"),
     };
     out["id"] = case["id"].clone();
